@@ -518,6 +518,11 @@ func (ig *ingest) r3Gates(e *Effect) {
 	if e.Config != "" || e.Kind != "call" || len(e.Args) == 0 {
 		return
 	}
+	if e.Name == "proofsvalidator.ValidatePreparedProof" && len(e.Args) == 6 && pathHas(e, "termincommittee") {
+		ev := ig.a.NewEval(e, ig.r)
+		lt := ev.Arg(5)
+		ev.Verdict("I4.closure", props("C18", "C12"), "the leader function handed to ValidatePreparedProof is LeaderOf over the term's committee", "path", ig.isLeaderClosure(lt), "argument is "+PP(lt))
+	}
 	ci, ok := e.Instr.(ssa.CallInstruction)
 	if !ok || !ci.Common().IsInvoke() {
 		return
@@ -740,6 +745,23 @@ func runStorageSlots(a *Analyzer, r *Results) {
 			}
 			return v
 		}
+		// a key may be one of the parameters or a composite key struct built from several of them
+		markKey := func(fr frame, k ssa.Value) {
+			usedKey[rootParam(fr, k)] = true
+			if ld, ok := k.(*ssa.UnOp); ok && ld.Op == token.MUL {
+				if al, ok := ld.X.(*ssa.Alloc); ok {
+					for _, ref := range *al.Referrers() {
+						if fa, ok := ref.(*ssa.FieldAddr); ok {
+							for _, r2 := range *fa.Referrers() {
+								if st, ok := r2.(*ssa.Store); ok && st.Addr == ssa.Value(fa) {
+									usedKey[rootParam(fr, st.Val)] = true
+								}
+							}
+						}
+					}
+				}
+			}
+		}
 		visit = func(fr frame, depth int) {
 			if depth > 4 {
 				return
@@ -755,10 +777,10 @@ func runStorageSlots(a *Analyzer, r *Results) {
 						}
 					case *ssa.Lookup:
 						if _, isMap := x.X.Type().Underlying().(*types.Map); isMap {
-							usedKey[rootParam(fr, x.Index)] = true
+							markKey(fr, x.Index)
 						}
 					case *ssa.MapUpdate:
-						usedKey[rootParam(fr, x.Key)] = true
+						markKey(fr, x.Key)
 					case ssa.CallInstruction:
 						sc := x.Common().StaticCallee()
 						if sc == nil || !a.P.IsLib(sc) || !strings.HasSuffix(funcPkgPath(sc), "services/storage") || sc == fr.fn {
